@@ -625,4 +625,118 @@ theorem parseDuration_aswas_witness_convert_ub :
     getDurationAsWas (some [57, 50, 50, 51, 51, 55, 50, 48, 51, 55, 115]) = .ub := by
   decide +kernel
 
+/-! ## Floats: acceptance only -/
+
+/-- a value `strtof` flags as out of range is rejected: the default 0 is returned, never ±HUGE_VAL or a denormal -/
+theorem parseFloat_rejects_on_range_error (errnoIn : Bool) (env : Option Bytes) : getFloatOk errnoIn true env = false := by
+  unfold getFloatOk getFloatOkWith
+  cases env with
+  | none => rfl
+  | some s => by_cases h : s.isEmpty = true <;> simp [h]
+
+/-- the incoming `errno` has no influence (D15: the same stale-`ERANGE` defect as in the uint reader) -/
+theorem parseFloat_errno_irrelevant (rangeErr : Bool) (env : Option Bytes) :
+    getFloatOk true rangeErr env = getFloatOk false rangeErr env := rfl
+
+theorem drop_takeWhile_append (p : UInt8 → Bool) (ds rest : Bytes) (hds : ∀ c ∈ ds, p c = true)
+    (hr : ∀ c, rest.head? = some c → p c = false) :
+    (ds ++ rest).takeWhile p = ds ∧ (ds ++ rest).drop ds.length = rest := by
+  constructor
+  · induction ds with
+    | nil =>
+      cases rest with
+      | nil => rfl
+      | cons c t => simp [List.takeWhile_cons, hr c rfl]
+    | cons d t ih =>
+      simp only [List.cons_append, List.takeWhile_cons, hds d (by simp), if_true, List.cons.injEq, true_and]
+      exact ih (fun c hc => hds c (by simp [hc]))
+  · simp
+
+theorem hasPrefixCi_head_ne (l0 : UInt8) (lt : Bytes) (c : UInt8) (t : Bytes) (h : toLower c ≠ l0) :
+    hasPrefixCi (l0 :: lt) (c :: t) = false := by
+  simp [hasPrefixCi, h]
+
+/-- plain decimals `digits` and `digits.digits` in range are accepted whatever `errno` was -/
+theorem parseFloat_accepts_decimal (errnoIn : Bool) (ip fp : Bytes) (hip : ip ≠ []) (h1 : ∀ c ∈ ip, IsDigit c)
+    (h2 : ∀ c ∈ fp, IsDigit c) :
+    getFloatOk errnoIn false (some ip) = true ∧ getFloatOk errnoIn false (some (ip ++ 46 :: fp)) = true := by
+  have d1 : ∀ c ∈ ip, isDigit c = true := fun c hc => (isDigit_iff c).2 (h1 c hc)
+  have d2 : ∀ c ∈ fp, isDigit c = true := fun c hc => (isDigit_iff c).2 (h2 c hc)
+  obtain ⟨c0, t0, rfl⟩ : ∃ c t, ip = c :: t := by cases ip with
+    | nil => exact absurd rfl hip
+    | cons c t => exact ⟨c, t, rfl⟩
+  have hc0 := d1 c0 (by simp)
+  obtain ⟨hsp, h45, h43, _, _⟩ := digit_facts c0 hc0
+  -- facts about the first character: not white space, no sign, not one of i n 0x… prefixes that would match
+  have hlow : ∀ c : UInt8, isDigit c = true → toLower c ≠ 105 ∧ toLower c ≠ 110 ∧ toLower c = c ∧ isDigit 46 = false ∧
+      toLower 46 ≠ 101 := forall_byte _ (by decide +kernel)
+  have key : ∀ (rest : Bytes), (rest = [] ∨ ∃ fp', rest = 46 :: fp' ∧ ∀ c ∈ fp', isDigit c = true) →
+      getFloatOk errnoIn false (some (c0 :: t0 ++ rest)) = true := by
+    intro rest hrest
+    have hs : (c0 :: t0 ++ rest) = c0 :: (t0 ++ rest) := rfl
+    unfold getFloatOk getFloatOkWith
+    simp only [hs, List.isEmpty_cons, Bool.false_eq_true, if_false, if_true, Bool.false_or, Bool.not_false, Bool.true_and,
+      beq_iff_eq]
+    unfold strtofEnd
+    have hdw : (c0 :: (t0 ++ rest)).dropWhile isSpace = c0 :: (t0 ++ rest) := by simp [List.dropWhile_cons, hsp]
+    simp only [hdw, Nat.sub_self, Nat.zero_add]
+    have hsign : ((c0 == 43 || c0 == 45) = false) := by simp [h43, h45]
+    simp only [hsign, Bool.false_eq_true, if_false, List.drop_zero]
+    -- the body is decimal
+    have hx : hasPrefixCi [48, 120] (c0 :: (t0 ++ rest)) = false := by
+      cases htr : t0 ++ rest with
+      | nil => simp [hasPrefixCi]
+      | cons x xs =>
+        -- x is a digit or '.', so toLower x ≠ 'x'
+        have hxd : isDigit x = true ∨ x = 46 := by
+          cases t0 with
+          | nil =>
+            rcases hrest with rfl | ⟨fp', rfl, _⟩
+            · simp at htr
+            · simp at htr; exact Or.inr htr.1.symm
+          | cons y ys =>
+            simp at htr
+            exact Or.inl (htr.1 ▸ d1 y (by simp))
+        have : ∀ x : UInt8, (isDigit x = true ∨ x = 46) → toLower x ≠ 120 := forall_byte _ (by decide +kernel)
+        have hne := this x hxd
+        simp [hasPrefixCi, hne]
+    have hbody : floatBodyLen (c0 :: (t0 ++ rest)) = mantLen isDigit 101 (c0 :: (t0 ++ rest)) := by
+      have l := hlow c0 hc0
+      unfold floatBodyLen
+      rw [hasPrefixCi_head_ne _ _ _ _ l.1, hasPrefixCi_head_ne _ _ _ _ l.1, hasPrefixCi_head_ne _ _ _ _ l.2.1, hx]
+      simp
+    rw [hbody]
+    -- the mantissa
+    have hmant : mantLen isDigit 101 (c0 :: (t0 ++ rest)) = (c0 :: (t0 ++ rest)).length := by
+      rcases hrest with rfl | ⟨fp', rfl, hfp'⟩
+      · have hall : ∀ c ∈ c0 :: t0, isDigit c = true := d1
+        have htw := drop_takeWhile_append isDigit (c0 :: t0) [] hall (by simp)
+        simp only [List.append_nil] at htw ⊢
+        unfold mantLen
+        simp only [htw.1, List.drop_length]
+        simp [expLen]
+      · have hall : ∀ c ∈ c0 :: t0, isDigit c = true := d1
+        have hdot : ∀ c, (46 :: fp' : Bytes).head? = some c → isDigit c = false := by
+          intro c hc; simp at hc; subst hc; decide
+        have htw := drop_takeWhile_append isDigit (c0 :: t0) (46 :: fp') hall hdot
+        have htw2 := drop_takeWhile_append isDigit fp' [] hfp' (by simp)
+        simp only [List.append_nil] at htw2
+        have hs' : c0 :: (t0 ++ 46 :: fp') = (c0 :: t0) ++ 46 :: fp' := rfl
+        unfold mantLen
+        rw [hs']
+        simp only [htw.1, htw.2, htw2.1]
+        have hlen : ((c0 :: t0).length + (1 + fp'.length)) = ((c0 :: t0) ++ 46 :: fp').length := by simp; omega
+        have hdrop : List.drop ((c0 :: t0).length + (1 + fp'.length)) ((c0 :: t0) ++ 46 :: fp') = [] := by
+          rw [hlen]; exact List.drop_length
+        simp only [List.isEmpty_cons, Bool.false_and, Bool.false_eq_true, if_false, hdrop, expLen, Nat.add_zero]
+        exact hlen
+    rw [hmant]
+    simp
+  refine ⟨?_, ?_⟩
+  · have := key [] (Or.inl rfl)
+    simpa using this
+  · exact key (46 :: fp) (Or.inr ⟨fp, rfl, d2⟩)
+
+example : getFloatOk true false (some [49, 46, 53]) = true := by decide +kernel    -- "1.5"
+
 end Otel.C18
